@@ -10,6 +10,7 @@ import (
 	"math/big"
 	"path/filepath"
 	"strconv"
+	"sync"
 	"time"
 
 	"github.com/golang/protobuf/proto"
@@ -86,6 +87,10 @@ type State struct {
 
 	// 最新区块高度通知装置
 	heightNotifier *BlockHeightNotifier
+
+	// held from the start of a walk until the pool recovery that walk started has finished:
+	// the next walk waits for it (see Walk)
+	recoverMutex sync.Mutex
 }
 
 func NewState(sctx *context.StateCtx) (*State, error) {
@@ -677,6 +682,19 @@ func (t *State) Walk(blockid []byte, ledgerPrune bool) error {
 
 	xTimer := timer.NewXTimer()
 
+	// A walk ends by re-admitting the pool in a goroutine of its own. Two blocks in quick
+	// succession made the second walk run next to the first one's recovery, which then went on
+	// re-admitting - from its old list, against its old idea of what is confirmed - transactions
+	// that the second walk had just applied: they ended up pending and confirmed at once. The
+	// recovery therefore keeps recoverMutex until it is done and the next walk waits for it.
+	t.recoverMutex.Lock()
+	recoveryStarted := false
+	defer func() {
+		if !recoveryStarted {
+			t.recoverMutex.Unlock()
+		}
+	}()
+
 	// 获取全局锁
 	t.utxo.Mutex.Lock()
 	defer t.utxo.Mutex.Unlock()
@@ -698,6 +716,7 @@ func (t *State) Walk(blockid []byte, ledgerPrune bool) error {
 	if err != nil {
 		t.log.Warn("walk fail,find common parent block fail", "dest_block", hex.EncodeToString(blockid),
 			"latest_block", hex.EncodeToString(t.latestBlockid), "err", err)
+		recoveryStarted = true
 		t.recoverAfterFailedWalk(undoList, nil)
 		return fmt.Errorf("walk find common parent block fail")
 	}
@@ -708,6 +727,7 @@ func (t *State) Walk(blockid []byte, ledgerPrune bool) error {
 	if err != nil {
 		t.resetMemAfterFailedBlock()
 		t.log.Warn("walk fail,because undo block fail", "err", err)
+		recoveryStarted = true
 		t.recoverAfterFailedWalk(undoList, nil)
 		return fmt.Errorf("walk undo block fail")
 	}
@@ -718,13 +738,15 @@ func (t *State) Walk(blockid []byte, ledgerPrune bool) error {
 	if err != nil {
 		t.resetMemAfterFailedBlock()
 		t.log.Warn("walk fail,because todo block fail", "err", err)
+		recoveryStarted = true
 		t.recoverAfterFailedWalk(undoList, appliedTxids(todoBlocks, t.latestBlockid))
 		return fmt.Errorf("walk todo block fail")
 	}
 	xTimer.Mark("walk_todo_block")
 
 	// 异步回放被回滚未确认交易
-	go t.recoverUnconfirmedTx(undoList, appliedTxids(todoBlocks, t.latestBlockid))
+	recoveryStarted = true
+	go t.recoverAndRelease(undoList, appliedTxids(todoBlocks, t.latestBlockid))
 
 	t.log.Info("utxo walk finish", "dest_block", hex.EncodeToString(blockid),
 		"latest_blockid", hex.EncodeToString(t.latestBlockid), "costs", xTimer.Print())
@@ -736,7 +758,13 @@ func (t *State) Walk(blockid []byte, ledgerPrune bool) error {
 // re-admit them, so one block that does not verify emptied the node's pool.
 func (t *State) recoverAfterFailedWalk(undoList []*pb.Transaction, applied map[string]bool) {
 	t.log.Info("walk failed, recover unconfirm tx", "tx_count", len(undoList))
-	go t.recoverUnconfirmedTx(undoList, applied)
+	go t.recoverAndRelease(undoList, applied)
+}
+
+// recoverAndRelease runs the pool recovery of a walk and then lets the next walk start.
+func (t *State) recoverAndRelease(undoList []*pb.Transaction, applied map[string]bool) {
+	defer t.recoverMutex.Unlock()
+	t.recoverUnconfirmedTx(undoList, applied)
 }
 
 // appliedTxids collects the transactions of the blocks a walk has applied: todoBlocks are applied
